@@ -24,7 +24,11 @@ type pg struct {
 	noNestedUse bool     // use() only as a statement of its own (never inside a larger expression)
 	iterM       int      // > 0 while generating the body of `for _ in m` (Go leaves insertion during map iteration unspecified)
 	loopNest    int      // current loop nesting (at most 2: keeps value growth bounded)
-	locals      []string // names never initialised by the prelude: created (block-locally) by assignment, read before/after (v1 only)
+	noS         bool     // while generating the value assigned to s inside a loop
+	counters    []string // counters of the enclosing three-clause loops: not reused by a nested loop and not
+	// assigned in a body, so every generated loop ends (an endless loop that doubles a string each round
+	// exhausts memory long before the signal stops it; endless loops have their own generators)
+	locals []string // names never initialised by the prelude: created (block-locally) by assignment, read before/after (v1 only)
 }
 
 func (g *pg) pick(xs []string) string { return xs[g.rng.Intn(len(xs))] }
@@ -59,10 +63,14 @@ func (g *pg) atomT(t string) string {
 			return g.pick([]string{"0", "1", "2", "3", "-1", "7", "9007199254740993", "9223372036854775807", "-2"})
 		}
 	case "str":
-		if g.v2 {
-			return g.pick([]string{"s", `"a"`, `""`, `"héllo"`, `"ab"`})
+		sv := "s"
+		if g.noS {
+			sv = `"cd"` // (a string assigned to s inside a loop is not built from s: no doubling per pass)
 		}
-		return g.pick([]string{"s", `"a"`, `""`, `"héllo"`, `"ab"`, "message", "t1"})
+		if g.v2 {
+			return g.pick([]string{sv, `"a"`, `""`, `"héllo"`, `"ab"`})
+		}
+		return g.pick([]string{sv, `"a"`, `""`, `"héllo"`, `"ab"`, "message", "t1"})
 	case "bool":
 		return g.pick([]string{"b", "true", "false"})
 	case "float":
@@ -173,6 +181,24 @@ func (g *pg) probe() string {
 	return fmt.Sprintf("p(%d, %s)", g.probeID, g.expr(1))
 }
 
+// the variables of a type a statement may assign: not the counter of an enclosing loop
+func (g *pg) assignable(t string) []string {
+	if t != "int" || len(g.counters) == 0 {
+		return varsOf[t]
+	}
+	r := []string{}
+	for _, v := range varsOf[t] {
+		used := false
+		for _, c := range g.counters {
+			used = used || c == v
+		}
+		if !used {
+			r = append(r, v)
+		}
+	}
+	return r
+}
+
 func (g *pg) simple() string {
 	if len(g.locals) > 0 && g.rng.Intn(5) == 0 {
 		switch g.rng.Intn(4) {
@@ -190,9 +216,12 @@ func (g *pg) simple() string {
 		return g.probe()
 	case 3, 4:
 		t := g.pick(allTypes[:8])
-		return fmt.Sprintf("%s = %s", g.pick(varsOf[t]), g.exprT(t, 2))
+		g.noS = t == "str" && g.loopNest > 0
+		rhs := g.exprT(t, 2)
+		g.noS = false
+		return fmt.Sprintf("%s = %s", g.pick(g.assignable(t)), rhs)
 	case 5:
-		return fmt.Sprintf("%s %s %s", g.pick(varsOf["int"]), g.pick([]string{"+=", "-=", "*=", "/=", "%="}), g.exprT("int", 1))
+		return fmt.Sprintf("%s %s %s", g.pick(g.assignable("int")), g.pick([]string{"+=", "-=", "*=", "/=", "%="}), g.exprT("int", 1))
 	case 6:
 		if g.iterM > 0 || g.rng.Intn(2) == 0 {
 			return fmt.Sprintf("l[%s] = %s", g.pick([]string{"0", "1", "-1", "i", "(-9223372036854775807 - 1)"}), g.expr(1))
@@ -259,6 +288,10 @@ func (g *pg) cond() string {
 }
 
 func (g *pg) block(depth int, inLoop bool, ind string) string {
+	if g.rng.Intn(9) == 0 {
+		// an empty block (a taken empty branch still ends the if statement)
+		return g.pick([]string{"{\n" + ind + "}", "{\n" + ind + "  # nothing\n" + ind + "}"})
+	}
 	n := g.rng.Intn(3)
 	if depth <= 0 {
 		n = g.rng.Intn(2)
@@ -295,7 +328,16 @@ func (g *pg) stmt(depth int, inLoop bool, ind string) string {
 		return s + "\n"
 	case 2, 3:
 		// bounded three-clause loop; each clause optional
-		v := g.pick([]string{"i", "j"})
+		free := []string{}
+		for _, c := range []string{"i", "j"} {
+			if len(g.counters) == 0 || g.counters[len(g.counters)-1] != c && (len(g.counters) < 2 || g.counters[0] != c) {
+				free = append(free, c)
+			}
+		}
+		if len(free) == 0 {
+			return ind + g.simple() + "\n"
+		}
+		v := g.pick(free)
 		init, cond, loop := fmt.Sprintf("%s = 0", v), fmt.Sprintf("%s < %d", v, 1+g.rng.Intn(g.loopBound)), fmt.Sprintf("%s = %s + 1", v, v)
 		pre, inBody := "", ""
 		if g.rng.Intn(4) == 0 {
@@ -309,7 +351,9 @@ func (g *pg) stmt(depth int, inLoop bool, ind string) string {
 			inBody += fmt.Sprintf("\n%s  if %s >= %d { break }", ind, v, 1+g.rng.Intn(g.loopBound))
 		}
 		g.loopNest++
+		g.counters = append(g.counters, v)
 		body := g.block(depth-1, true, ind)
+		g.counters = g.counters[:len(g.counters)-1]
 		g.loopNest--
 		if len(g.locals) > 0 && g.rng.Intn(3) == 0 {
 			// the clauses read or create a name the body creates or reads (scope of clause vs body)
